@@ -245,7 +245,7 @@ func genSpace(r *gen.Rand) *refjson.Node {
 	return numNode(float64(r.Range(1, 4)))
 }
 
-var replFns = []string{"log", "filter", "replace", "thisget"}
+var replFns = []string{"log", "filter", "replace", "thisget", "mutate"}
 
 // genReplArr builds a replacer that is not a function: mostly arrays of
 // candidate property names with duplicates / numbers / boxed / ineligible
